@@ -127,10 +127,27 @@ def obligation_props(name):
     return [p for p in head.split('/') if re.fullmatch(r'C\d\d', p)]
 
 
+def carried(name, fn, prop, fn_props):
+    """obligations named for ANOTHER property that this property's argument rests on (props.PROPS[prop]['depends_on']):
+    a property id stands for that property's obligations in functions whose chain lists `prop`; a full obligation name
+    stands for itself"""
+    import props as P
+    dep = P.PROPS.get(prop, {}).get('depends_on', [])
+    if not name:
+        return False
+    if any(k['obligation'] == name for k in load_known()):
+        # a listed known finding stays with the property that owns it (C01's quantifier hands KF2's schedules to C05)
+        return False
+    if name in dep:
+        return True
+    ps = obligation_props(name)
+    return any(d in ps for d in dep) and prop in fn_props.get(fn or '', [])
+
+
 def relevant(failure, prop, fn_props):
     ps = obligation_props(failure['obligation'])
     if ps:
-        return prop in ps
+        return prop in ps or carried(failure['obligation'], failure['declared_in'], prop, fn_props)
     # auxiliary / built-in safety obligation: belongs to every property whose chain contains the function
     for fpath in (failure['site'], failure['declared_in']):
         if fpath and prop in fn_props.get(fpath, []):
@@ -287,6 +304,7 @@ def main():
 
     # 6. evidence
     my_obls = [o for o in report['obligations'] if prop in obligation_props(o['name'])
+               or carried(o['name'], o['fn'], prop, fn_props)
                or (not obligation_props(o['name']) and prop in fn_props.get(o['fn'] or '', []))]
     my_fns = [f for f in report['functions'] if prop in f['props']]
     builtin = ['nopanic+termination.' + f['path'] for f in my_fns if f['kind'] in ('exec', 'lemma')]
